@@ -1,8 +1,10 @@
-// BOUNDED NATIVE STAND-IN (not a proof): the 8192-byte search window of
-// find_header is out of reach of both verifiers here (CBMC cannot unwind the
-// 8189-iteration window scan; this Verus cannot specify Iterator::position).
-// The real function is executed natively on every magic position 8150..=8210
-// in buffers of several lengths around the limit, against the statement's oracle.
+// BOUNDED NATIVE CROSS-CHECK (not a proof) of find_header around its 8192-byte search window on
+// compiled code.  Since session 3 the window clause is PROVED in Verus for all lengths
+// (contracts/verus/hdr_find.rs); CBMC still cannot unwind the 8189-iteration window scan, so this
+// is the only execution of that clause on the compiled function, and the only check of the
+// address identity of the returned sub-slice beyond 48-byte buffers.  The real function is run on
+// every magic position 8150..=8210 in buffers of several lengths around the limit, against the
+// statement's oracle.
 use super::*;
 use std::vec::Vec;
 
